@@ -131,6 +131,11 @@ func skPlan(stmts []ast.Stmt, guard string, rows *[]string) {
 					row("cache-get", l, nodeString(ix.Index))
 					continue
 				}
+				// the cache key: a composite literal of the key struct (`key := codeObjKey{pid: …, co: co}`)
+				if cl, ok := x.Rhs[0].(*ast.CompositeLit); ok && nodeString(cl.Type) == "codeObjKey" {
+					row("key", l, strings.Join(strings.Fields(nodeString(cl)), " "))
+					continue
+				}
 				if ix, ok := x.Lhs[0].(*ast.IndexExpr); ok && strings.HasPrefix(nodeString(ix.X), "d.codeObjGPUAddrs") {
 					row("cache-put", nodeString(ix.Index), nodeString(x.Rhs[0]))
 					continue
@@ -261,6 +266,23 @@ func genC13Skel() {
 		fatalf("c13skel: Driver.codeObjGPUAddrs not found")
 	}
 	fmt.Fprintf(&b, "/-- type of `Driver.codeObjGPUAddrs` -/\ndef cacheType : String := %s\n\n", leanStr(cacheType))
+	// fields of the key struct named by the cache type (empty when the key is not a struct of driver.go)
+	var keyFields []string
+	ast.Inspect(df, func(m ast.Node) bool {
+		ts, ok := m.(*ast.TypeSpec)
+		if !ok || "map["+ts.Name.Name+"]Ptr" != cacheType {
+			return true
+		}
+		if st, ok := ts.Type.(*ast.StructType); ok {
+			for _, f := range st.Fields.List {
+				for _, n := range f.Names {
+					keyFields = append(keyFields, n.Name+" "+nodeString(f.Type))
+				}
+			}
+		}
+		return false
+	})
+	b.WriteString(skList("cacheKeyFields", "fields of the struct that keys `Driver.codeObjGPUAddrs`", keyFields))
 
 	// packet size = sum of the field widths of HsaKernelDispatchPacket
 	_, pf := parseFile("amd/kernels/hsakerneldispatchpacket.go")
